@@ -25,6 +25,10 @@ RULE = (
     "opened for writing in place / truncated) is checked on every run. Non-trivial and distinct = distinct "
     "(scenario, step, fault) runs in which the process actually died at that step."
 )
+RULE += (
+    " " + "Added later: whole-document assignment through the owner's property; after each crash that leaves a stray temp file, one more complete (much shorter) write; each replacing step failing once, after which the target must still never be opened for writing."
+    " In every third case DEBUG logging is effective for the package."
+)
 ASSUMPTIONS = [
     "A crash is process death with the kernel state intact (os._exit); power-loss durability (fsync ordering) is out of reach.",
     "Local POSIX file system semantics (tmpfs): rename is atomic.",
